@@ -35,6 +35,7 @@ RULE = (
     ' Round 6: lost-link cases reconnect on the same object and read from the new connection; duplex cases issue 2-3 concurrent writes under back-pressure (bytes must be the lines in call order).'
     ' Round 7: cases also run with the library at DEBUG; use after a failed connect must raise a transport error.'
     ' Round 8: `cancel_read k`; read-side EOF followed by a write on the open connection.'
+    ' Round 12: a write that neither returns nor raises within 20 s of real time on a socket pair is reported (write-hangs); `connect_delay` (the connection takes virtual seconds to minutes to open).'
     ' Round 11: duplex sessions in which written lines come back on the incoming stream; `gap` (virtual minutes to days pass before the awaited line arrives).'
     ' Round 9: the in-memory transport keeps the written objects by reference; EAGAIN/EINTR/ENOSPC/... among link errors.'
     ' Round 10: the in-memory connection counts queued objects discarded by abort(); disconnect of a healthy connection may not discard written lines.'
@@ -112,6 +113,7 @@ def _duplex_case(draw) -> dict:
             "cancel_read": draw(st.sampled_from((None, None, 0, 1, 2, 3))),
             "gap": draw(st.sampled_from((0, 0, 0, 5, 301, 100000))),
             "raw_lines": draw(st.sampled_from((False, False, True))),
+            "connect_delay": draw(st.sampled_from((0, 0, 0, 5, 15, 600))),
         })
     return {"kind": "duplex", "transport": draw(st.sampled_from(("base", "tcp", "serial"))), "sessions": sessions}
 
@@ -132,6 +134,11 @@ def _duplex_enumerated():
             echo = {"lines": ["1;1;1;0;2;1", "2;2;1;0;0;x", "1;1;1;0;2;1", "12;6;1;1;47;åäö"], "writes": ["1;1;1;0;2;1\n", "12;6;1;1;47;åäö\n"], "pending": pending, "end": "disconnect", "raw_lines": True}
             yield {"kind": "duplex", "transport": transport, "sessions": [echo]}
             yield {"kind": "duplex", "transport": transport, "sessions": [echo, echo]}
+        # a connection that takes seconds to minutes (virtual) to open: it opens, nothing else
+        for delay in (1, 9, 11, 31, 120, 3600):
+            slow = {"lines": ["1;1;1;0;0;20.5"], "writes": ["1;1;1;0;2;1\n"], "pending": "none", "end": "disconnect", "connect_delay": delay}
+            yield {"kind": "duplex", "transport": transport, "sessions": [slow]}
+            yield {"kind": "duplex", "transport": transport, "sessions": [slow, slow]}
         # a quiet link: a read waits minutes, hours, days (virtual time) for the next line, or for the rest of one
         for gap in (1, 299, 301, 3600, 86400 * 3):
             for pending in ("empty", "partial"):
@@ -422,10 +429,13 @@ def _run_write(case: dict) -> Outcome:
                         await asyncio.sleep(0)
                 known_dead = closed and transport.writer is not None and transport.writer.is_closing()
                 try:
-                    await transport.write(line)
+                    # (a few hundred bytes into a socket pair: 20 s of real time only ever run out when the call never returns)
+                    await asyncio.wait_for(transport.write(line), 20)
                     sent_ok.append(line)
                     if known_dead:
                         return fail("write-silently-dropped", f"write {idx} {line!r} returned normally although the connection is already known to be lost (writer is closing)")
+                except asyncio.TimeoutError:
+                    return fail("write-hangs", f"write {idx} {line!r} neither returned nor raised (peer {'closed before write ' + str(closes_after) if closed else 'open'}; earlier writes: {info['errors']} errors)")
                 except TransportError:
                     info["errors"] += 1
                     if not closed:
@@ -471,7 +481,11 @@ def _run_duplex(case: dict) -> Outcome:
         real_tcp, real_serial = asyncio.open_connection, serial_mod.open_serial_connection
         opened: list = []
 
+        connect_delay = [0.0]
+
         async def fake_open(*args, **kwargs):
+            if connect_delay[0]:
+                await asyncio.sleep(connect_delay[0])  # a slow network / a device that takes its time to open (virtual seconds)
             reader, writer, mem = env.mem_stream_pair(65536)
             opened.append((reader, mem))
             return reader, writer
@@ -490,6 +504,7 @@ def _run_duplex(case: dict) -> Outcome:
             for sidx, session in enumerate(case["sessions"]):
                 where = f"session {sidx + 1} ({which})"
                 before = len(opened)
+                connect_delay[0] = float(session.get("connect_delay") or 0)
                 try:
                     await transport.connect()
                 except Exception as err:  # noqa: BLE001
